@@ -50,12 +50,20 @@ Definition li_snap (s : Li.state) : list (list Z) :=
 Definition co_snap (s : Co.state) : list (list Z) :=
   [[Z.of_nat (Co.by_ s)]; map zb (Co.act s); [Co.otarget s]; Co.ctarget s].
 
+Definition mo_snap (s : Mo.state) : list (list Z) := flat_map co_snap (Mo.outs s).
+
 (* a case: the initial snapshot observed on the freshly built module, then one observation per operation *)
 Inductive case :=
 | CaseSt (L : St.layout) (ops : list St.op) (init : list (list Z)) (os : list obs)
 | CaseFe (L : Fe.layout) (ops : list Fe.op) (init : list (list Z)) (os : list obs)
 | CaseLi (L : Li.layout) (ops : list Li.op) (init : list (list Z)) (os : list obs)
-| CaseCo (kinds : list nat) (ops : list Co.op) (init : list (list Z)) (os : list obs).
+| CaseCo (kinds : list nat) (ops : list Co.op) (init : list (list Z)) (os : list obs)
+(* a node with several outputs: operations are addressed (output number, operation) *)
+| CaseMo (Ls : list (list nat)) (ops : list (nat * Co.op)) (init : list (list Z)) (os : list obs)
+(* two threads on a struct module: programs of thread A / B, the schedule (three moves per operation, in the order in
+   which the implementation's threads got the accessLock), snapshot and complete update stream at quiescence *)
+| CaseCs (L : St.layout) (pa pb : list St.op) (sched : list bool) (init : list (list Z)) (final : list (list Z))
+         (evs : list ev).
 
 Definition check_case (c : case) : bool :=
   match c with
@@ -67,6 +75,12 @@ Definition check_case (c : case) : bool :=
       list_eqb zl_eqb (li_snap (Li.init L)) i && run_check (Li.step L) Li.evs li_snap (Li.init L) ops os
   | CaseCo k ops i os =>
       list_eqb zl_eqb (co_snap (Co.init k)) i && run_check (Co.step k) Co.evs co_snap (Co.init k) ops os
+  | CaseMo Ls ops i os =>
+      list_eqb zl_eqb (mo_snap (Mo.init Ls)) i && run_check (Mo.step Ls) Mo.log mo_snap (Mo.init Ls) ops os
+  | CaseCs L pa pb sched i final evs =>
+      let c := Cs.run L pa pb sched in
+      list_eqb zl_eqb (st_snap (St.init L)) i && Cs.quiescent c
+      && list_eqb zl_eqb (st_snap (Cs.sst c)) final && list_eqb ev_eqb (rev (St.evs (Cs.sst c))) evs
   end.
 
 (* what the model does, for diagnosis in replay files *)
@@ -76,4 +90,8 @@ Definition model_result (c : case) : list (res * list (list Z)) :=
   | CaseFe L ops _ _ => run_trace (Fe.step L) (fe_snap L) (Fe.init L) ops
   | CaseLi L ops _ _ => run_trace (Li.step L) li_snap (Li.init L) ops
   | CaseCo k ops _ _ => run_trace (Co.step k) co_snap (Co.init k) ops
+  | CaseMo Ls ops _ _ => run_trace (Mo.step Ls) mo_snap (Mo.init Ls) ops
+  | CaseCs L pa pb sched _ _ _ =>
+      let c := Cs.run L pa pb sched in
+      [(ROk (map (fun e => Z.of_nat (fst e)) (rev (St.evs (Cs.sst c)))), st_snap (Cs.sst c))]
   end.
